@@ -1,22 +1,42 @@
 (* C04 protocol model WITH VALUES (LazyMap.v, repaired code): every operation of an execution has a linearization
    point inside its interval (trace invariant [TI]):
      Store             the fullyLinked step (new node) or the value write under the node lock (existing node);
+     LoadOrStore(Lazy) (v, false): the fullyLinked step of the node it linked (the constructor has run exactly once
+                       then, never before); (x, true): it saw the node unmarked, later fully linked, and read x without
+                       a lock: the reading step if the node is still unmarked then, else the moment before the
+                       marking step (the marker knows the node is fully linked; marked => value frozen);
      LoadAndDelete ok  its marking step; the value it returns later is the value at that step (marked => frozen);
+     Delete true       its marking step;
      Load (x, true)    the reading step if the node is still unmarked then, else the moment before the marking step;
-     (0, false)        a moment inside the operation at which the key is absent (hindsight). *)
+     (0, false) / false   a moment inside the operation at which the key is absent (hindsight). *)
 From VF Require Import Common.Base Common.Hist C04.Spec C04.LazyMap C04.ProofsLazyMap C04.LzmReach C04.LzmLock C04.LzmAbs
   C04.LzmHist C04.LzmTrace.
 Local Open Scope Z_scope.
 
-Definition op_key (o : opk) : Z := match o with MStore k _ | MLoad k | MLoadAndDelete k => k end.
+Definition op_key (o : opk) : Z :=
+  match o with MStore k _ | MLoad k | MLoadAndDelete k | MLoadOrStore k _ | MLoadOrStoreLazy k _ | MDelete k => k end.
+
+(* the operation of the O program counters; the R program counters serve LoadAndDelete and Delete *)
+Definition oop (k v : Z) (lz : bool) : opk := if lz then MLoadOrStoreLazy k v else MLoadOrStore k v.
+Definition is_del (o : opk) (k : Z) : Prop := o = MLoadAndDelete k \/ o = MDelete k.
+(* how often the constructor has run once the new node exists *)
+Definition ins_cnt (lz : bool) : nat := if lz then 1%nat else 0%nat.
+
+Lemma is_del_key o k : is_del o k -> op_key o = k.
+Proof. intros [-> | ->]; reflexivity. Qed.
 
 Definition pc_for (h : heap) (p : pc) (o : opk) : Prop :=
   match p with
   | SFind k v _ | SLock k v _ _ | SValid k v _ _ | SLink k v _ _ | SFull k v _ _ | SUnlock k v _ _
   | SLockN k v _ | SChkM k v _ | SWaitL k v _ | SWrite k v _ | SUnlockN k v _ _ => o = MStore k v
   | RFind k _ _ | RCheck k _ _ | RLockV k _ _ | RMark k _ _ | RLockP k _ _ | RValid k _ _ | RUnlink k _ _
-  | RUnlockV k _ _ | RUnlockP k _ _ _ => o = MLoadAndDelete k
-  | RGiveUp v | RRead v => o = MLoadAndDelete (ky h v)
+  | RUnlockV k _ _ | RUnlockP k _ _ _ => is_del o k
+  | RGiveUp v | RRead v => is_del o (ky h v)
+  | OFind k v lz n _ | OChkM k v lz n _ | OWaitL k v lz n _ | ORead k v lz n _ | OLock k v lz n _ _
+  | OValid k v lz n _ _ => o = oop k v lz /\ n = 0%nat
+  | OCall k v lz n _ _ => o = oop k v lz /\ n = 0%nat /\ lz = true
+  | OLink k v lz n _ _ | OFull k v lz n _ _ => o = oop k v lz /\ n = ins_cnt lz
+  | OUnlock k v lz n _ ok => o = oop k v lz /\ n = (if ok then ins_cnt lz else 0%nat)
   | LFind k _ | LFlags k _ => o = MLoad k
   | LRead c => o = MLoad (ky h c)
   | Idle | Done _ _ | SChkM0 _ _ _ | SWrite0 _ _ _ => False
@@ -30,6 +50,9 @@ Definition pre_lin (p : pc) : bool :=
   | SUnlock _ _ _ ok | SUnlockN _ _ _ ok => negb ok
   | RFind _ _ None | RCheck _ _ _ | RLockV _ _ _ | RMark _ _ _ | RGiveUp _ => true
   | LFind _ _ | LFlags _ _ | LRead _ => true
+  | OFind _ _ _ _ _ | OChkM _ _ _ _ _ | OWaitL _ _ _ _ _ | ORead _ _ _ _ _ | OLock _ _ _ _ _ _ | OValid _ _ _ _ _ _
+  | OCall _ _ _ _ _ _ | OLink _ _ _ _ _ _ | OFull _ _ _ _ _ _ => true
+  | OUnlock _ _ _ _ _ ok => negb ok
   | _ => false
   end.
 
@@ -54,13 +77,28 @@ Definition obsfact (o : opk) (v : Z) (ok : bool) (h : heap) : Prop :=
   match o with
   | MLoad k => if ok then In (k, v) (absmap h) else v = 0 /\ absentk k h
   | MLoadAndDelete k => ok = false /\ v = 0 /\ absentk k h
+  | MLoadOrStore k _ | MLoadOrStoreLazy k _ => ok = true /\ In (k, v) (absmap h)
+  | MDelete k => ok = false /\ absentk k h
   | MStore _ _ => False
   end.
+
+(* the ghost counter reported by a LoadOrStoreLazy: the constructor ran once iff the operation stored *)
+Definition calls_ok (o : opk) (calls : nat) (ok : bool) : Prop :=
+  match o with MLoadOrStoreLazy _ _ => calls = (if ok then 0 else 1)%nat | _ => True end.
 
 Lemma obs_ok_fact s o v ok : Inv s -> Inv3 s -> is_mut o ok = false ->
   (obs_ok o v ok (hp s) = true <-> obsfact o v ok (hp s)).
 Proof.
-  intros I1 I3 NM. destruct o as [k v0|k|k]; cbn [is_mut] in NM; [discriminate| |subst ok]; cbn [obs_ok obsfact].
+  intros I1 I3 NM.
+  assert (LOS : forall k, ok = true ->
+            (match fm_get k (absmap (hp s)) with Some x => ok && (x =? v) | None => false end = true <->
+             ok = true /\ In (k, v) (absmap (hp s)))).
+  { intros k ->. destruct (fm_get k (absmap (hp s))) as [x|] eqn:G; cbn [andb].
+    - pose proof (fm_get_in _ _ _ G) as Hx. rewrite Z.eqb_eq. split; [intros <-; auto|].
+      intros [_ Hv]. exact (absmap_fun s I1 I3 k x v Hx Hv).
+    - pose proof (fm_get_none _ _ G) as A. split; [discriminate|]. intros [_ Hv]. exfalso. exact (A v Hv). }
+  destruct o as [k v0|k|k|k v0|k v0|k]; cbn [is_mut] in NM; cbn [obs_ok obsfact].
+  - discriminate.
   - destruct (fm_get k (absmap (hp s))) as [x|] eqn:G.
     + pose proof (fm_get_in _ _ _ G) as Hx. destruct ok; cbn [andb negb].
       * rewrite Z.eqb_eq. split; [intros <-; exact Hx|]. intros Hv. exact (absmap_fun s I1 I3 k x v Hx Hv).
@@ -68,9 +106,14 @@ Proof.
     + pose proof (fm_get_none _ _ G) as A. destruct ok; cbn [andb negb].
       * split; [discriminate|]. intros Hv. exfalso. exact (A v Hv).
       * rewrite Z.eqb_eq. split; [intros ->; auto|tauto].
-  - destruct (fm_get k (absmap (hp s))) as [x|] eqn:G.
+  - subst ok. destruct (fm_get k (absmap (hp s))) as [x|] eqn:G.
     + pose proof (fm_get_in _ _ _ G) as Hx. split; [discriminate|]. intros (_ & _ & A). exfalso. exact (A x Hx).
     + pose proof (fm_get_none _ _ G) as A. cbn [andb negb]. rewrite Z.eqb_eq. split; [intros ->; auto|tauto].
+  - apply LOS. now destruct ok.
+  - apply LOS. now destruct ok.
+  - subst ok. destruct (fm_get k (absmap (hp s))) as [x|] eqn:G.
+    + pose proof (fm_get_in _ _ _ G) as Hx. split; [discriminate|]. intros (_ & A). exfalso. exact (A x Hx).
+    + pose proof (fm_get_none _ _ G) as A. cbn [negb]. tauto.
 Qed.
 
 Lemma find_obs_some (f : heap -> bool) (hs : list heap) lo d j : (lo < j <= lo + d)%nat -> f (nth j hs []) = true ->
@@ -102,7 +145,10 @@ Definition linstep (m t : nat) (o : opk) (w : option nat) : Prop :=
   (m < length sched)%nat /\ TID m = t /\
   match o with
   | MStore k v => (exists pred nn, pc_of (ST m) t = SFull k v pred nn) \/ (exists c, pc_of (ST m) t = SWrite k v c)
-  | MLoadAndDelete k => exists pred x, pc_of (ST m) t = RMark k pred x /\ mkd (hp (ST m)) x = false /\ w = Some x
+  | MLoadAndDelete k | MDelete k =>
+      exists pred x, pc_of (ST m) t = RMark k pred x /\ mkd (hp (ST m)) x = false /\ w = Some x
+  | MLoadOrStore k v => exists n pred nn, pc_of (ST m) t = OFull k v false n pred nn
+  | MLoadOrStoreLazy k v => exists n pred nn, pc_of (ST m) t = OFull k v true n pred nn
   | MLoad _ => False
   end.
 
@@ -111,6 +157,8 @@ Definition mutres (o : opk) (w : option nat) (m : nat) (v : Z) (ok : bool) : Pro
   match o with
   | MStore _ _ => True
   | MLoadAndDelete _ => ok = true /\ exists x, w = Some x /\ v = vl (hp (ST m)) x
+  | MDelete _ => ok = true
+  | MLoadOrStore _ v0 | MLoadOrStoreLazy _ v0 => ok = false /\ v = v0
   | MLoad _ => False
   end.
 
@@ -119,6 +167,9 @@ Definition hind_core (n a : nat) (p : pc) : Prop :=
   match p with
   | RFind _ pred None | LFind _ pred => exists m, (a < m <= n)%nat /\ reach (hp (ST m)) 0 pred
   | RCheck _ _ v | RLockV _ _ v | RMark _ _ v | LFlags _ v => exists m, (a < m <= n)%nat /\ reach (hp (ST m)) 0 v
+  | OWaitL _ _ _ _ c => exists j, (a < j <= n)%nat /\ valid (hp (ST j)) c /\ mkd (hp (ST j)) c = false
+  | ORead _ _ _ _ c => (exists j, (a < j <= n)%nat /\ valid (hp (ST j)) c /\ mkd (hp (ST j)) c = false) /\
+                       lkd (hp (ST n)) c = true
   | _ => True
   end.
 
@@ -136,7 +187,8 @@ Record pend_ok (n t : nat) (p : pc) (pd : pnd) : Prop := {
                (1 <= c)%nat /\ exists j, (p_inv pd < j <= n)%nat /\ valid (hp (ST j)) c /\ live (get (hp (ST j)) c) = true }.
 
 Definition entry_ok (n : nat) (e : entry) : Prop :=
-  exists a b o v ok, e_op e = Build_op (N.of_nat a) (N.of_nat b) (call_of o) (ret_of o v ok) /\ (a < b < n)%nat /\
+  exists a b o calls v ok, e_op e = Build_op (N.of_nat a) (N.of_nat b) (call_of o) (ret_of o calls v ok) /\
+    calls_ok o calls ok /\ (a < b < n)%nat /\
     ((exists m, e_pt e = (2 * m)%nat /\ (a < m <= b)%nat /\ obsfact o v ok (hp (ST m))) \/
      (exists m t w, e_pt e = (2 * m + 1)%nat /\ (a < m <= b)%nat /\ linstep m t o w /\ mutres o w m v ok)).
 
@@ -156,13 +208,15 @@ Record TI (n : nat) : Prop := {
 
 Lemma entry_ok_mono n e : entry_ok n e -> entry_ok (Datatypes.S n) e.
 Proof.
-  intros (a & b & o & v & ok & E & L & X). exists a, b, o, v, ok. split; [exact E|split; [lia|exact X]].
+  intros (a & b & o & calls & v & ok & E & CK & L & X). exists a, b, o, calls, v, ok.
+  split; [exact E|split; [exact CK|split; [lia|exact X]]].
 Qed.
 
 Lemma hind_core_mono n a p : hind_core n a p -> hind_core (Datatypes.S n) a p.
 Proof.
   destruct p; simpl; auto; try (intros (m & L & R); exists m; split; [lia|exact R]).
-  destruct mk; auto. intros (m & L & R); exists m; split; [lia|exact R].
+  - destruct mk; auto. intros (m & L & R); exists m; split; [lia|exact R].
+  - intros [(m & L & R) K]. split; [exists m; split; [lia|exact R]|]. apply (st_linked progs sched n); [lia|exact K].
 Qed.
 
 (* threads that do not move *)
@@ -229,6 +283,21 @@ Proof.
     + rewrite <- Ev. symmetry. apply st_frozen; [lia|exact M1].
   - exists n. split; [lia|split; [|reflexivity]]. apply live_flags.
     split; [apply (st_linked progs sched j); [lia|exact Lk]|exact Mn].
+Qed.
+
+(* a node seen unmarked at moment j, seen fully linked at moment n >= j, whose value x is read at moment n: at some
+   moment in between the node was live with value x *)
+Lemma hind_value2 j n c : (j <= n)%nat -> valid (hp (ST j)) c -> mkd (hp (ST j)) c = false -> lkd (hp (ST n)) c = true ->
+  exists m, (j <= m <= n)%nat /\ live (get (hp (ST m)) c) = true /\ vl (hp (ST m)) c = vl (hp (ST n)) c.
+Proof.
+  intros L V Mk Lk.
+  destruct (mkd (hp (ST n)) c) eqn:Mn.
+  - destruct (mark_step progs sched j n c L V Mk Mn) as (m & Lm & M0 & M1 & _ & Ev).
+    exists m. split; [lia|split].
+    + apply live_flags. split; [|exact M0].
+      apply (st_mark_linked progs sched m c); auto. apply (st_valid progs sched j); [lia|exact V].
+    + rewrite <- Ev. symmetry. apply st_frozen; [lia|exact M1].
+  - exists n. split; [lia|split; [|reflexivity]]. apply live_flags. auto.
 Qed.
 
 (* ---------- one step of the acting thread ---------- *)
@@ -327,21 +396,21 @@ Proof.
   - (* RMark *) cbn [hind_core] in PH. cbn [pc_ok] in P. destruct P as [[V K] (Pv & Vv & Kv)].
     cbn [lin_pc]. destruct (mkd h v) eqn:Em; cbn [snd negb].
     + intros _. split; [|split; [split; [reflexivity|discriminate]|split; [exact I|split]]].
-      * cbn [pc_for]. rewrite (KEY v Vv). congruence.
-      * intros v0 Ev. inversion Ev; subst v0. rewrite PF. cbn [op_key].
+      * cbn [pc_for]. rewrite (KEY v Vv), Kv. exact PF.
+      * intros v0 Ev. inversion Ev; subst v0. rewrite (is_del_key _ _ PF).
         destruct (hind_dead n (p_inv pd) v k PH PI Pv Kv) as (j & Lj & A).
         { apply live_false. now right. }
         exists j. split; [lia|exact A].
       * intros ? X. discriminate X.
     + intros _. split; [exact PF|split; [|split; [exact I|split; intros ? X; discriminate X]]].
       cbn [pre_lin lad_victim]. split; [now apply LPN|split; [reflexivity|]]. split; [exact Ln|split; [exact Et|]].
-      rewrite PF. exists pred, v. split; [exact PCN|split; [exact Em|reflexivity]].
+      destruct PF as [PF|PF]; rewrite PF; exists pred, v; (split; [exact PCN|split; [exact Em|reflexivity]]).
   - (* RLockP *) destruct (acquire h t pred); cbn [snd]; boring PF.
   - (* RValid *) match goal with |- context [if ?b then _ else _] => destruct b end; cbn [snd]; boring PF.
   - (* RUnlink *) boring PF.
   - (* RUnlockV *) boring PF.
   - (* RUnlockP *) cbn [pc_ok] in P. destruct P as [[V K] (Pv & Vv & Kv)]. destruct ok; cbn [snd]; [|boring PF].
-    intros _. split; [cbn [pc_for]; rewrite (KEY v Vv); congruence|].
+    intros _. split; [cbn [pc_for]; rewrite (KEY v Vv), Kv; exact PF|].
     split; [split; [reflexivity|reflexivity]|]. split; [exact I|split; intros ? X; discriminate X].
   - (* RGiveUp *) discriminate.
   - (* RRead *) discriminate.
@@ -358,27 +427,54 @@ Proof.
     split; [split; [reflexivity|discriminate]|]. split; [exact I|split; [intros ? X; discriminate X|]].
     intros c0 Ec. inversion Ec; subst c0. split; [exact Pc|]. exists n. split; [lia|split; [exact Vc|exact El]].
   - (* LRead *) discriminate.
+  - (* OFind *)
+    destruct (nx h pred) as [c|]; cbn [snd]; [|boring PF].
+    destruct (ky h c <? k); cbn [snd]; [boring PF|].
+    destruct (ky h c =? k); boring PF.
+  - (* OChkM *) cbn [pc_ok] in P. destruct P as (Pc & Vc & Kc). destruct (mkd h c) eqn:Em; cbn [snd]; [boring PF|].
+    intros _. split; [exact PF|split; [split; [reflexivity|discriminate]|split; [|split; intros ? X; discriminate X]]].
+    cbn [hind_core]. exists n. split; [lia|split; [exact Vc|exact Em]].
+  - (* OWaitL *) cbn [hind_core] in PH. destruct (lkd h c) eqn:El; cbn [snd].
+    + intros _. split; [exact PF|split; [split; [reflexivity|discriminate]|split; [|split; intros ? X; discriminate X]]].
+      cbn [hind_core]. destruct PH as (j & Lj & A). split; [exists j; split; [lia|exact A]|].
+      apply (st_linked progs sched n); [lia|exact El].
+    + intros _. split; [exact PF|split; [split; [reflexivity|discriminate]|split; [|split; intros ? X; discriminate X]]].
+      cbn [hind_core]. destruct PH as (j & Lj & A). exists j. split; [lia|exact A].
+  - (* ORead *) discriminate.
+  - (* OLock *) destruct (acquire h t pred); cbn [snd]; boring PF.
+  - (* OValid *) destruct PF as [PF1 PF2].
+    match goal with |- context [if ?b then _ else _] => destruct b end; cbn [snd]; [destruct lz|];
+      intros _; (split; [cbn [pc_for ins_cnt]; auto|]); (split; [split; [reflexivity|discriminate]|]);
+      (split; [exact I|split; intros ? X; discriminate X]).
+  - (* OCall *) destruct PF as (PF1 & PF2 & PF3). cbn [snd]. intros _. split; [cbn [pc_for]; split; [exact PF1|now subst]|].
+    split; [split; [reflexivity|discriminate]|]. split; [exact I|split; intros ? X; discriminate X].
+  - (* OLink *) boring PF.
+  - (* OFull *) intros _. split; [exact PF|]. split; [|split; [exact I|split; intros ? X; discriminate X]].
+    cbn [lin_pc snd pre_lin negb lad_victim]. split; [now apply LPN|split; [reflexivity|]].
+    split; [exact Ln|split; [exact Et|]]. destruct PF as [PF _]. rewrite PF.
+    destruct lz; cbn [oop]; exists n0, pred, nn; exact PCN.
+  - (* OUnlock *) destruct ok; cbn [snd]; [discriminate|]. boring PF.
 Qed.
 
-Definition done_goal (v : Z) (ok : bool) : Prop :=
-  entry_ok (Datatypes.S n) (mk_entry pd v ok n (g_hs (GR n))) /\
-  mpt (mk_entry pd v ok n (g_hs (GR n))) = lpl (Some pd).
+Definition done_goal (calls : nat) (v : Z) (ok : bool) : Prop :=
+  entry_ok (Datatypes.S n) (mk_entry pd calls v ok n (g_hs (GR n))) /\
+  mpt (mk_entry pd calls v ok n (g_hs (GR n))) = lpl (Some pd).
 
-Lemma done_mut m w v ok : p_lp pd = Some m -> (p_inv pd < m < n)%nat -> linstep m t (p_op pd) w ->
-  is_mut (p_op pd) ok = true -> mutres (p_op pd) w m v ok -> done_goal v ok.
+Lemma done_mut m w calls v ok : p_lp pd = Some m -> (p_inv pd < m < n)%nat -> linstep m t (p_op pd) w ->
+  is_mut (p_op pd) ok = true -> mutres (p_op pd) w m v ok -> calls_ok (p_op pd) calls ok -> done_goal calls v ok.
 Proof.
-  intros El Lm LS IM MR. destruct PO as [PI _ _ _ _ _].
+  intros El Lm LS IM MR CK. destruct PO as [PI _ _ _ _ _].
   assert (Ept : point pd v ok n (g_hs (GR n)) = (2 * m + 1)%nat) by (unfold point; now rewrite IM, El).
   split.
-  - exists (p_inv pd), n, (p_op pd), v, ok. split; [reflexivity|split; [lia|right]].
+  - exists (p_inv pd), n, (p_op pd), calls, v, ok. split; [reflexivity|split; [exact CK|split; [lia|right]]].
     exists m, t, w. cbn [mk_entry e_pt]. split; [exact Ept|split; [lia|split; assumption]].
   - unfold mpt. cbn [mk_entry e_pt lpl]. rewrite Ept, El, odd_2m1, div2_2m1. reflexivity.
 Qed.
 
-Lemma done_obs v ok : p_lp pd = None -> is_mut (p_op pd) ok = false ->
-  (exists j, (p_inv pd < j <= n)%nat /\ obsfact (p_op pd) v ok (hp (ST j))) -> done_goal v ok.
+Lemma done_obs calls v ok : p_lp pd = None -> is_mut (p_op pd) ok = false -> calls_ok (p_op pd) calls ok ->
+  (exists j, (p_inv pd < j <= n)%nat /\ obsfact (p_op pd) v ok (hp (ST j))) -> done_goal calls v ok.
 Proof.
-  intros El NM (j & Lj & Fj). destruct PO as [PI _ _ _ _ _].
+  intros El NM CK (j & Lj & Fj). destruct PO as [PI _ _ _ _ _].
   destruct (gr_hs progs sched n (Nat.lt_le_incl _ _ Ln)) as [_ HS].
   assert (Fj' : obs_ok (p_op pd) v ok (nth j (g_hs (GR n)) []) = true).
   { rewrite HS by lia. apply (obs_ok_fact (ST j)); auto using st_inv, st_inv3. }
@@ -387,19 +483,24 @@ Proof.
   rewrite HS in Fm by lia. apply (obs_ok_fact (ST m)) in Fm; auto using st_inv, st_inv3.
   assert (Ept : point pd v ok n (g_hs (GR n)) = (2 * m)%nat) by (unfold point; now rewrite NM, Em).
   split.
-  - exists (p_inv pd), n, (p_op pd), v, ok. split; [reflexivity|split; [lia|left]].
+  - exists (p_inv pd), n, (p_op pd), calls, v, ok. split; [reflexivity|split; [exact CK|split; [lia|left]]].
     exists m. cbn [mk_entry e_pt]. split; [exact Ept|split; [lia|exact Fm]].
   - unfold mpt. cbn [mk_entry e_pt lpl]. rewrite Ept, El, odd_2m. reflexivity.
 Qed.
 
-Lemma trans_done v ok : snd (action true h t (at_pc th)) = Done v ok -> done_goal v ok.
+Lemma trans_done v ok : snd (action true h t (at_pc th)) = Done v ok -> done_goal (calls_of (at_pc th)) v ok.
 Proof.
   destruct (inv_pcs _ I1 t th E) as [P W]. pose proof (invr_flags _ IR t th E) as F.
   pose proof lp_none_pre as LPN. pose proof lp_some_post as LPS.
   pose proof done_mut as DM. pose proof done_obs as DO.
   destruct PO as [PI PF PL PH PG PR].
   fold h in P, W, F, PF. pose proof (inv_ord _ I1) as O. fold h in O.
-  destruct (at_pc th) eqn:Ep; try discriminate B; cbn [action]; cbv zeta; cbn [pc_for] in PF.
+  (* an unsuccessful LoadAndDelete / Delete *)
+  assert (DEL : forall k, is_del (p_op pd) k -> pre_lin (at_pc th) = true ->
+            (exists j, (p_inv pd < j <= n)%nat /\ absentk k (hp (ST j))) -> done_goal (calls_of (at_pc th)) 0 false).
+  { intros k [PK|PK] PRE (j & Lj & A); (apply DO; [now apply LPN|now rewrite PK|now rewrite PK|]); rewrite PK;
+      cbn [obsfact]; exists j; auto. }
+  destruct (at_pc th) eqn:Ep; try discriminate B; cbn [action]; cbv zeta; cbn [pc_for calls_of] in *.
   - (* SFind *) destruct (nx h pred) as [c|]; cbn [snd]; [|discriminate].
     destruct (ky h c <? k); cbn [snd]; [discriminate|]. destruct (ky h c =? k); discriminate.
   - (* SLock *) destruct (acquire h t pred); discriminate.
@@ -407,13 +508,13 @@ Proof.
   - discriminate.
   - discriminate.
   - (* SUnlock *) destruct ok0; cbn [snd]; [|discriminate]. intros X. inversion X; subst v ok.
-    destruct (LPS eq_refl) as (m & El & Lm & LS). apply (DM m _ 0 true El Lm LS); rewrite PF; [reflexivity|exact I].
+    destruct (LPS eq_refl) as (m & El & Lm & LS). apply (DM m _ _ 0 true El Lm LS); rewrite PF; [reflexivity|exact I|exact I].
   - (* SLockN *) destruct (acquire h t c); discriminate.
   - (* SChkM *) destruct (mkd h c); discriminate.
   - (* SWaitL *) destruct (lkd h c); discriminate.
   - discriminate.
   - (* SUnlockN *) destruct ok0; cbn [snd]; [|discriminate]. intros X. inversion X; subst v ok.
-    destruct (LPS eq_refl) as (m & El & Lm & LS). apply (DM m _ 0 true El Lm LS); rewrite PF; [reflexivity|exact I].
+    destruct (LPS eq_refl) as (m & El & Lm & LS). apply (DM m _ _ 0 true El Lm LS); rewrite PF; [reflexivity|exact I|exact I].
   - contradiction.
   - contradiction.
   - (* RFind *) cbn [pc_ok] in P. destruct P as [[V K] M]. destruct mk as [x|].
@@ -423,16 +524,15 @@ Proof.
     + cbn [hind_core] in PH. destruct (nx h pred) as [c|] eqn:En; cbn [snd].
       * destruct (ky h c <? k) eqn:E1; cbn [snd]; [discriminate|].
         destruct (ky h c =? k) eqn:E2; cbn [snd]; [discriminate|].
-        intros X. inversion X; subst v ok. apply DO; [now apply LPN|now rewrite PF|]. rewrite PF. cbn [obsfact].
-        destruct (hind_gap n (p_inv pd) pred k (Some c) PH K En) as (j & Lj & A).
-        { apply Z.ltb_ge in E1. apply Z.eqb_neq in E2. fold h. lia. }
-        exists j. auto.
-      * intros X. inversion X; subst v ok. apply DO; [now apply LPN|now rewrite PF|]. rewrite PF. cbn [obsfact].
-        destruct (hind_gap n (p_inv pd) pred k None PH K En I) as (j & Lj & A). exists j. auto.
+        intros X. inversion X; subst v ok. apply (DEL k PF eq_refl).
+        apply (hind_gap n (p_inv pd) pred k (Some c) PH K En).
+        apply Z.ltb_ge in E1. apply Z.eqb_neq in E2. fold h. lia.
+      * intros X. inversion X; subst v ok. apply (DEL k PF eq_refl).
+        exact (hind_gap n (p_inv pd) pred k None PH K En I).
   - (* RCheck *) cbn [hind_core] in PH. cbn [pc_ok] in P. destruct P as [[V K] (Pv & Vv & Kv)].
     destruct (lkd h v0 && negb (mkd h v0)) eqn:El; cbn [snd]; [discriminate|].
-    intros X. inversion X; subst v ok. apply DO; [now apply LPN|now rewrite PF|]. rewrite PF. cbn [obsfact].
-    destruct (hind_dead n (p_inv pd) v0 k PH PI Pv Kv El) as (j & Lj & A). exists j. auto.
+    intros X. inversion X; subst v ok. apply (DEL k PF eq_refl).
+    exact (hind_dead n (p_inv pd) v0 k PH PI Pv Kv El).
   - (* RLockV *) destruct (acquire h t v0); discriminate.
   - (* RMark *) destruct (mkd h v0); discriminate.
   - (* RLockP *) destruct (acquire h t pred); discriminate.
@@ -441,13 +541,13 @@ Proof.
   - discriminate.
   - (* RUnlockP *) destruct ok0; discriminate.
   - (* RGiveUp *) cbn [snd]. intros X. inversion X; subst v ok.
-    apply DO; [now apply LPN|now rewrite PF|]. destruct (PG v0 eq_refl) as (j & Lj & A).
-    exists j. split; [exact Lj|]. rewrite PF in *. cbn [obsfact op_key] in *. auto.
+    apply (DEL _ PF eq_refl). rewrite <- (is_del_key _ _ PF). exact (PG v0 eq_refl).
   - (* RRead *) cbn [snd]. intros X. inversion X; subst v ok. clear X.
-    destruct (LPS eq_refl) as (m & El & Lm & LS). apply (DM m _ _ true El Lm LS); rewrite PF; [reflexivity|].
-    cbn [mutres lad_victim]. split; [reflexivity|]. exists v0. split; [reflexivity|].
+    destruct (LPS eq_refl) as (m & El & Lm & LS). cbn [lad_victim] in LS.
+    destruct PF as [PF|PF]; apply (DM m _ _ _ true El Lm LS); rewrite PF; try reflexivity; try exact I.
+    cbn [mutres]. split; [reflexivity|]. exists v0. split; [reflexivity|].
     destruct LS as (Lms & Etm & LS). rewrite PF in LS. destruct LS as (pr & x & Epc & Mx & Ex).
-    cbn [lad_victim] in Ex. inversion Ex; subst x.
+    inversion Ex; subst x.
     unfold pc_of in Epc. destruct (nth_error (ths (ST m)) t) as [thm|] eqn:Em; [|discriminate].
     destruct (mark_effect (ST m) (st_inv progs sched m) (st_invR progs sched m) (st_inv3 progs sched m) t thm _ pr v0 Em Epc Mx)
       as (_ & M1 & V1 & _).
@@ -457,24 +557,49 @@ Proof.
     destruct (nx h pred) as [c|] eqn:En; cbn [snd].
     + destruct (ky h c <? k) eqn:E1; cbn [snd]; [discriminate|].
       destruct (ky h c =? k) eqn:E2; cbn [snd]; [discriminate|].
-      intros X. inversion X; subst v ok. apply DO; [now apply LPN|now rewrite PF|]. rewrite PF. cbn [obsfact].
+      intros X. inversion X; subst v ok. apply DO; [now apply LPN|now rewrite PF|now rewrite PF|]. rewrite PF. cbn [obsfact].
       destruct (hind_gap n (p_inv pd) pred k (Some c) PH K En) as (j & Lj & A).
       { apply Z.ltb_ge in E1. apply Z.eqb_neq in E2. fold h. lia. }
       exists j. auto.
-    + intros X. inversion X; subst v ok. apply DO; [now apply LPN|now rewrite PF|]. rewrite PF. cbn [obsfact].
+    + intros X. inversion X; subst v ok. apply DO; [now apply LPN|now rewrite PF|now rewrite PF|]. rewrite PF. cbn [obsfact].
       destruct (hind_gap n (p_inv pd) pred k None PH K En I) as (j & Lj & A). exists j. auto.
   - (* LFlags *) cbn [hind_core] in PH. cbn [pc_ok] in P. destruct P as (Pc & Vc & Kc).
     destruct (lkd h c && negb (mkd h c)) eqn:El; cbn [snd]; [discriminate|].
-    intros X. inversion X; subst v ok. apply DO; [now apply LPN|now rewrite PF|]. rewrite PF. cbn [obsfact].
+    intros X. inversion X; subst v ok. apply DO; [now apply LPN|now rewrite PF|now rewrite PF|]. rewrite PF. cbn [obsfact].
     destruct (hind_dead n (p_inv pd) c k PH PI Pc Kc El) as (j & Lj & A). exists j. auto.
   - (* LRead *) cbn [snd]. intros X. inversion X; subst v ok. clear X.
-    apply DO; [now apply LPN|now rewrite PF|]. rewrite PF. cbn [obsfact].
+    apply DO; [now apply LPN|now rewrite PF|now rewrite PF|]. rewrite PF. cbn [obsfact].
     destruct (PR c eq_refl) as (Pc & j & Lj & Vj & Lvj).
     destruct (hind_value j n c ltac:(lia) Vj Lvj) as (m & Lm & Lvm & Evm).
     exists m. split; [lia|]. fold h in Evm. rewrite <- Evm.
     assert (Vm : valid (hp (ST m)) c) by (apply (st_valid progs sched j); [lia|exact Vj]).
     apply (present_live (ST m)); auto. unfold h.
     rewrite (st_key progs sched j m c), (st_key progs sched j n c); auto; lia.
+  - (* OFind *) destruct (nx h pred) as [c|]; cbn [snd]; [|discriminate].
+    destruct (ky h c <? k); cbn [snd]; [discriminate|]. destruct (ky h c =? k); discriminate.
+  - (* OChkM *) destruct (mkd h c); discriminate.
+  - (* OWaitL *) destruct (lkd h c); discriminate.
+  - (* ORead *) cbn [snd]. intros X. inversion X; subst v ok. clear X.
+    cbn [hind_core] in PH. cbn [pc_ok] in P. destruct P as (Pc & Vc & Kc). destruct PF as [PF ->].
+    destruct PH as [(j & Lj & Vj & Mj) Lkn].
+    assert (OBS : exists m, (p_inv pd < m <= n)%nat /\ In (k, vl h c) (absmap (hp (ST m)))).
+    { destruct (hind_value2 j n c ltac:(lia) Vj Mj Lkn) as (m & Lm & Lvm & Evm).
+      exists m. split; [lia|]. fold h in Evm. rewrite <- Evm.
+      assert (Vm : valid (hp (ST m)) c) by (apply (st_valid progs sched j); [lia|exact Vj]).
+      apply (present_live (ST m)); auto. rewrite <- Kc. unfold h.
+      rewrite (st_key progs sched j m c), (st_key progs sched j n c); auto; lia. }
+    destruct OBS as (m & Lm & Hm).
+    apply DO; [now apply LPN| | |]; rewrite PF; destruct lz; cbn [oop is_mut calls_ok obsfact negb]; auto;
+      exists m; auto.
+  - (* OLock *) destruct (acquire h t pred); discriminate.
+  - (* OValid *) match goal with |- context [if ?b then _ else _] => destruct b end; [destruct lz|]; discriminate.
+  - discriminate.
+  - discriminate.
+  - discriminate.
+  - (* OUnlock *) destruct ok0; cbn [snd]; [|discriminate]. intros X. inversion X; subst v0 ok. clear X.
+    destruct PF as [PF ->].
+    destruct (LPS eq_refl) as (m & El & Lm & LS).
+    apply (DM m _ _ v false El Lm LS); rewrite PF; destruct lz; cbn [oop is_mut mutres calls_ok ins_cnt negb]; auto.
 Qed.
 End Act.
 
@@ -518,7 +643,7 @@ Lemma gstep_fields g t :
   let fin := match fin_res s t, nth t cur1 None with Some r, Some pd => Some (r, pd) | _, _ => None end in
   g_cur (gstep g t) = (match fin with Some _ => upd cur1 t None | None => cur1 end) /\
   g_log (gstep g t) = (match fin with
-                       | Some (r, pd) => g_log g ++ [mk_entry pd (fst r) (snd r) n (g_hs g)]
+                       | Some (r, pd) => g_log g ++ [mk_entry pd (calls_of (pc_of s t)) (fst r) (snd r) n (g_hs g)]
                        | None => g_log g end) /\
   g_chg (gstep g t) = (if negb (resting (pc_of s t)) && lin_pc (hp s) (pc_of s t) then g_chg g ++ [n] else g_chg g).
 Proof. cbv zeta. auto. Qed.
@@ -619,7 +744,7 @@ Proof.
         { unfold thr_step. rewrite Bz, Etd. reflexivity. }
         rewrite EP. split; [destruct o; reflexivity|]. split; cbn [fresh p_op p_inv p_lp].
         -- lia.
-        -- destruct o; reflexivity.
+        -- destruct o; cbn [start pc_for oop]; unfold is_del; auto.
         -- destruct o; reflexivity.
         -- destruct o; simpl; auto; exists (Datatypes.S n); (split; [lia|apply reach_refl]).
         -- intros v Ev. destruct o; discriminate Ev.
@@ -637,7 +762,7 @@ Proof.
     { intros X. rewrite SS. apply step_abs_frame; [apply st_inv|]. fold s. now rewrite PC. }
     destruct (resting (snd (action true (hp s) t0 (at_pc th)))) eqn:Bz'.
     + (* it completes its operation *)
-      destruct (snd (action true (hp s) t0 (at_pc th))) as [|v ok| | | | | | | | | | | | | | | | | | | | | | | | | | |] eqn:Ea;
+      destruct (snd (action true (hp s) t0 (at_pc th))) as [|v ok| | | | | | | | | | | | | | | | | | | | | | | | | | | | | | | | | | | | |] eqn:Ea;
         try discriminate Bz'.
       { exfalso. exact (action_not_idle (hp s) t0 (at_pc th) Bz Ea). }
       assert (Lp : lin_pc (hp s) (at_pc th) = false).
@@ -646,9 +771,9 @@ Proof.
       assert (OU : own_upd s n t0 cur = cur) by (unfold own_upd; now rewrite E, Bz, Lp).
       assert (FR : fin_res s t0 = Some (v, ok)).
       { unfold fin_res. rewrite PC, Bz. rewrite <- SS, PC'. reflexivity. }
-      rewrite OU, FR, Ecur in FC, FL. rewrite PC, Bz, Lp in FG. cbn [negb andb fst snd] in FG, FL.
+      rewrite OU, FR, Ecur in FC, FL. rewrite PC in FL. rewrite PC, Bz, Lp in FG. cbn [negb andb fst snd] in FG, FL.
       destruct (trans_done n t0 th pd Ln eq_refl E Bz PO v ok Ea) as [D1 D2].
-      apply (ti_build (upd cur t0 None) (g_log (GR n) ++ [mk_entry pd v ok n (g_hs (GR n))]) (g_chg (GR n))); auto.
+      apply (ti_build (upd cur t0 None) (g_log (GR n) ++ [mk_entry pd (calls_of (at_pc th)) v ok n (g_hs (GR n))]) (g_chg (GR n))); auto.
       * now rewrite upd_length.
       * intros t N. apply nth_upd_other. congruence.
       * intros th' E'. rewrite nth_upd_same by exact Lt. rewrite (TH2 th' E'). reflexivity.
